@@ -51,6 +51,10 @@ func teffOf(tset string) time.Duration {
 }
 
 func runC20(x *mc.X) {
+	if m := mc.Pick(x, "mode", []string{"product", "burst of stale hits while the origin hangs", "stored response without a body and without Content-Length", "client sends preconditions of its own"}); m != "product" {
+		runC20Special(x, m)
+		return
+	}
 	tset := mc.Pick(x, "swr-timeout-option", []string{"unset", "0", "-1s", "1s", "10s", "500µs"})
 	lat := mc.Pick(x, "origin-latency", []string{"0", "1s", "T-1ns", "T+1ns", "2T", "never"})
 	outcome := mc.Pick(x, "background-outcome", []string{"304", "200", "500", "error", "body-error"})
@@ -299,5 +303,81 @@ func runC20(x *mc.X) {
 	world.Quiesce()
 	if n, dump := bubbleGoroutines(); n > baseline {
 		x.Failf("goroutine outlives the background request", "%d goroutines in the bubble after everything ended (%d before the first request): %s", n, baseline, dump)
+	}
+}
+
+// runC20Special: (a) twenty stale hits in a row while the origin never answers — none of them may wait; (b) a stored
+// response with an empty body of unknown length; (c) a client that sends its own preconditions — the background request
+// still carries the STORED validators.
+func runC20Special(x *mc.X, mode string) {
+	validators := mc.Pick(x, "validators", []string{"etag", "lm", "both"})
+	w := world.New(world.Opt{})
+	defer w.Close()
+	lm := httpDate(w.Epoch.Add(-secs(1000)))
+	h := H("Cache-Control", "max-age=5, stale-while-revalidate=100000")
+	if validators != "lm" {
+		h = append(h, [2]string{"ETag", `"v1"`})
+	}
+	if validators != "etag" {
+		h = append(h, [2]string{"Last-Modified", lm})
+	}
+	spec := RS{Status: 200, H: h}
+	if mode == "stored response without a body and without Content-Length" {
+		spec.Body, spec.UnknownCL, spec.NoTok = []byte{}, true, false
+	}
+	answer(w, spec)
+	o1 := get(w, U)
+	logObs(x, "GET (stored, stale-while-revalidate)", o1)
+	world.Advance(secs(10))
+	var conds []string
+	answerFn(w, func(o *world.Origin, c *world.Call) (*http.Response, error) {
+		conds = append(conds, fmt.Sprintf("inm=%q ims=%q", c.Header.Get("If-None-Match"), c.Header.Get("If-Modified-Since")))
+		<-c.Req.Context().Done() // the origin never answers
+		return nil, c.Req.Context().Err()
+	})
+	n := 1
+	if mode == "burst of stale hits while the origin hangs" {
+		n = 20
+	}
+	w.NoWait = true
+	for i := 0; i < n; i++ {
+		req := world.Req("GET", U, "X-Req", fmt.Sprint(i))
+		if mode == "client sends preconditions of its own" {
+			req.Header.Set("If-None-Match", `"clients-own"`)
+			req.Header.Set("If-Modified-Since", httpDate(w.Epoch.Add(-secs(5000))))
+		}
+		t0 := time.Now()
+		o := w.Do(req)
+		took := time.Since(t0)
+		world.Quiesce()
+		if o.Panic != nil || o.Err != nil || o.HdrTok != o1.HdrTok || o.CacheStatus != "STALE" {
+			x.Failf("stale response not served under stale-while-revalidate ("+mode+")", "request %d: %s", i+1, o)
+			return
+		}
+		if took != 0 {
+			x.Failf("foreground response waited for the origin ("+mode+")", "stale hit %d of %d took %v of virtual time while the origin hangs", i+1, n, took)
+			return
+		}
+	}
+	world.Advance(30 * time.Second)
+	x.Nontrivial(mode + "/" + validators)
+	x.State(mode, validators, fmt.Sprint(len(conds)))
+	if len(conds) != n {
+		x.Failf(fmt.Sprintf("%d background revalidation requests for %d stale responses served", len(conds), n), "%s", mode)
+		return
+	}
+	want := fmt.Sprintf("inm=%q ims=%q", map[bool]string{true: `"v1"`}[validators != "lm"], map[bool]string{true: lm}[validators != "etag"])
+	if mode == "client sends preconditions of its own" {
+		// a stored validator replaces the client's precondition of the same kind; the other kind may stay the client's
+		for _, c := range conds {
+			okINM := validators == "lm" || strings.Contains(c, `inm="\"v1\""`)
+			okIMS := validators == "etag" || strings.Contains(c, fmt.Sprintf("ims=%q", lm))
+			if !okINM || !okIMS {
+				x.Failf("background revalidation not conditional on the stored validators ("+validators+", client preconditions)", "sent %s", c)
+				return
+			}
+		}
+	} else if conds[0] != want {
+		x.Failf("background revalidation not conditional on the stored validators ("+validators+")", "sent %s, want %s", conds[0], want)
 	}
 }
